@@ -373,6 +373,52 @@ fn repair_comment_only_content(input: &str) -> Option<String> {
     Some(out)
 }
 
+/// A code block with several statements written on one line (`{ let x = 1; x }`) cannot stay on one line
+/// (the printer never emits `;`), not even where breaks are suppressed (prose lines, math). Counterfactual:
+/// the same block written over several lines in the source.
+fn repair_explode_multi_stmt_blocks(input: &str) -> Option<String> {
+    let root = tree::parse_ok(input)?;
+    let mut edits: Vec<(usize, usize, String)> = vec![];
+    tree::walk(&root, &mut |n, off, _| {
+        if n.kind() != K::CodeBlock {
+            return;
+        }
+        let text = &input[off..off + n.len()];
+        if text.contains('\n') {
+            return;
+        }
+        let Some(code) = n.children().find(|c| c.kind() == K::Code) else { return };
+        let stmts: Vec<&SyntaxNode> = code.children().filter(|c| !matches!(c.kind(), K::Space | K::Semicolon) && !tree::is_comment(c.kind())).collect();
+        if stmts.len() < 2 || code.children().any(|c| tree::is_comment(c.kind())) {
+            return;
+        }
+        let mut body = String::from("{\n");
+        for s in stmts {
+            body.push_str(&s.clone().into_text());
+            body.push('\n');
+        }
+        body.push('}');
+        edits.push((off, off + n.len(), body));
+    });
+    if edits.is_empty() {
+        return None;
+    }
+    // innermost-first application would need re-parsing; take the outermost blocks only
+    edits.sort_by_key(|e| e.0);
+    let mut out = String::new();
+    let mut last = 0;
+    for (a, b, t) in edits {
+        if a < last {
+            continue;
+        }
+        out.push_str(&input[last..a]);
+        out.push_str(&t);
+        last = b;
+    }
+    out.push_str(&input[last..]);
+    Some(out)
+}
+
 pub fn repair(name: &str, input: &str) -> Option<String> {
     match name {
         "eol_blank_in_literal" => repair_eol_blank_in_literal(input),
@@ -382,6 +428,17 @@ pub fn repair(name: &str, input: &str) -> Option<String> {
         "table_columns_paren" => repair_table_columns_paren(input),
         "comment_only_content" => repair_comment_only_content(input),
         "cli_f14" => crate::p_cli::repair_f14(input),
+        "explode_multi_stmt_blocks" => {
+            // nested one-line blocks: repeat until no one-line multi-statement block is left
+            let mut cur = repair_explode_multi_stmt_blocks(input)?;
+            for _ in 0..6 {
+                match repair_explode_multi_stmt_blocks(&cur) {
+                    Some(n) if n != cur => cur = n,
+                    _ => break,
+                }
+            }
+            Some(cur)
+        }
         _ => None,
     }
 }
